@@ -291,38 +291,81 @@ func TestC19(t *testing.T) {
 func TestC19Unforced(t *testing.T) {
 	rec := vstat.For("C19", t.Name(), "netw")
 	c19Setup()
-	for variant := 0; variant < 2; variant++ {
-		sc := c19Scenario{N: 2, Backup: []bool{false, variant == 1}, Policy: "roundRobin", HTTP: variant == 1, InitUp: []bool{false, false}}
+	shard, nshards := vstat.Shard()
+	post := func(addr, uri string) *clientResp {
+		return do(c19Cl, reqSpec{Method: "POST", Addr: addr, Host: "c19.test", URI: uri, Body: []byte("x")})
+	}
+	// waitFor polls until a request is answered 200 by the wanted server (30 s = 6 health-check periods)
+	waitFor := func(addr, uri, server string) bool {
+		deadline := time.Now().Add(30 * time.Second)
+		for time.Now().Before(deadline) {
+			r := post(addr, uri)
+			if r.Err == "" && r.Code == 200 && (server == "" || r.Header.Get("X-Upstream") == server) {
+				return true
+			}
+			time.Sleep(400 * time.Millisecond)
+		}
+		return false
+	}
+	for variant := 0; variant < 4; variant++ {
+		if nshards > 1 && variant%nshards != shard {
+			continue
+		}
+		sc := c19Scenario{N: 2, Backup: []bool{false, variant%2 == 1}, Policy: "roundRobin", HTTP: variant%2 == 1, InitUp: []bool{variant >= 2, variant >= 2}}
 		out := &vstat.Outcome{NonTrivial: true}
 		c19Seq++
 		for i := 0; i < 4; i++ {
 			c19Ups[i].Stop()
 			c19Ups[i].clear()
 		}
+		if variant >= 2 {
+			_ = c19Ups[0].Start()
+			_ = c19Ups[1].Start()
+		}
 		addr, err := c19Apply(sc, c19Seq)
 		if err != nil {
 			t.Skipf("apply: %v", err)
 		}
-		r := do(c19Cl, reqSpec{Method: "POST", Addr: addr, Host: "c19.test", URI: "/c19/unforced/0", Body: []byte("x")})
-		if r.Err == "" && r.Code < 500 {
-			out.Violate("C19", "no-server", "no server is up but the request got status %d", r.Code)
-		}
-		_ = c19Ups[0].Start()
-		_ = c19Ups[1].Start()
-		deadline := time.Now().Add(30 * time.Second)
-		recovered := false
-		for time.Now().Before(deadline) {
-			r := do(c19Cl, reqSpec{Method: "POST", Addr: addr, Host: "c19.test", URI: "/c19/unforced/1", Body: []byte("x")})
-			if r.Err == "" && r.Code == 200 {
-				recovered = true
-				break
+		if variant < 2 {
+			// nothing is up: 5xx; then the servers come back and traffic must resume by itself
+			r := post(addr, "/c19/unforced/0")
+			if r.Err == "" && r.Code < 500 {
+				out.Violate("C19", "no-server", "no server is up but the request got status %d", r.Code)
 			}
-			time.Sleep(500 * time.Millisecond)
+			_ = c19Ups[0].Start()
+			_ = c19Ups[1].Start()
+			if !waitFor(addr, "/c19/unforced/1", "") {
+				out.Violate("C19", "no-recovery", "servers came back but traffic did not resume by itself within 30 s (6 health-check periods)")
+			}
+			out.Class("unforced_recovery")
+		} else {
+			// the same configuration is applied again (a reload that leaves the upstream
+			// unchanged), then the first server fails: the periodic checker alone must
+			// notice it and move the traffic to the other server (the backup in variant 3)
+			if _, err := c19Apply(sc, c19Seq); err != nil {
+				t.Skipf("apply: %v", err)
+			}
+			if r := post(addr, "/c19/unforced/2"); r.Err != "" || r.Code != 200 {
+				out.Violate("C19", "failed-with-healthy-server", "both servers are up but the request got %d %s", r.Code, r.Err)
+			}
+			c19Ups[0].Stop()
+			if !waitFor(addr, "/c19/unforced/3", c19Ups[1].name) {
+				out.Violate("C19", "no-failover", "after a reload with an unchanged upstream the first server went down, but 30 s later requests are still not served by the remaining healthy server")
+			}
+			// and once the checker has settled, no request may fail any more
+			time.Sleep(6 * time.Second)
+			for j := 0; j < 6; j++ {
+				if r := post(addr, fmt.Sprintf("/c19/unforced/4-%d", j)); r.Err != "" || r.Code != 200 {
+					out.Violate("C19", "down-server-used", "11 s after the first server went down request %d still fails with %d %s", j, r.Code, r.Err)
+					break
+				}
+			}
+			_ = c19Ups[0].Start()
+			if !waitFor(addr, "/c19/unforced/5", c19Ups[0].name) {
+				out.Violate("C19", "no-recovery", "the first server came back but got no traffic within 30 s")
+			}
+			out.Class("unforced_failover_after_unchanged_reload")
 		}
-		if !recovered {
-			out.Violate("C19", "no-recovery", "servers came back but traffic did not resume by itself within 30 s (6 health-check periods)")
-		}
-		out.Class("unforced_recovery")
 		out.Sig = fmt.Sprintf("unforced-%d", variant)
 		if !vstat.RunOne(t, rec, sc, out) {
 			return
